@@ -187,6 +187,22 @@ func ZZ_C13_willmod(a []int) {
 	zzAssert(zzSharedWrites() == 0, "monitor: read-only use of a shared will message writes to shared memory")
 }
 
+// ZZ_C13_subid: a SUBSCRIBE whose subscription identifier is any 32-bit
+// value, zero included (present-but-zero is a state the setters reach).
+func ZZ_C13_subid(a []int) {
+	p := NewSubscribe()
+	p.SetPacketID(zzU16("pid"))
+	p.SetSubscriptionID(int(zzU32("sid")))
+	p.AddFilters(NewTopicFilter(string(zzBytes("f", 1)), Opt(zzU8("o")&3)))
+	zzMarkShared()
+	var w1 zzSink
+	p.WriteTo(&w1)
+	zzAssert(zzSharedWrites() == 0, "monitor: WriteTo writes to memory shared with other goroutines")
+	zzReadOnlyOps(p)
+	zzReach("subid")
+	zzAssert(zzSharedWrites() == 0, "monitor: String/Dump/WellFormed/accessors write to memory shared with other goroutines")
+}
+
 // ZZ_C13_read: ReadPacket of a short frame (type nibble a[0], a[1] arbitrary
 // body bytes) while everything that existed before is shared: decoding on a
 // private stream must not write to shared or package-level memory.
